@@ -15,7 +15,21 @@ instrumented iff some hook that is active at that moment has a name n with
 m == n or m.startswith(n + "."); its checker is that of an active covering hook
 (don't-care which one when several cover it); nothing is instrumented after
 uninstall / leaving the with-block; functions already instrumented keep their
-checker whatever happens later.
+checker whatever happens later - and so do the functions, classes and methods
+that an instrumented module DEFINES later: every forest module has factories
+whose def / class statements (nesting depth 2..4) are executed when the factory
+is called, and the search calls them (well-typed, then ill-typed) after every
+install / uninstall / leave and on every newly loaded module; what they return
+must run exactly like the module's top-level function (plain for a plain
+module, otherwise the checker of the install call that loaded the module), at
+every point of the history - also after the hook is gone and while only other
+hooks are installed.
+
+Undo and reset restore the WHOLE state of the hook machinery (worlds.HookState:
+globals and class attributes of the hook modules, attribute dictionaries of the
+live handles / finders / typechecker objects, contents of all mutable containers
+reachable from them), so every history is executed as a fresh process would
+execute it, whatever bookkeeping the implementation keeps.
 """
 from __future__ import annotations
 
